@@ -147,6 +147,9 @@ def _portable(cls, first, codelen, table):
     if cls == "Code310":
         from xdis.codetype.code310 import Code310
         return Code310(0, 0, 0, 0, 0, 0, code, (), (), (), "f.py", "f", first, table, (), ())
+    if cls == "Code311":
+        from xdis.codetype.code311 import Code311
+        return Code311(0, 0, 0, 0, 0, 0, (), code, (), (), (), (), "f.py", "f", "f", first, table, b"")
     raise ValueError(cls)
 
 
@@ -168,12 +171,12 @@ def op_freeze(c):
         else:
             # a list is only accepted after construction (the constructors type-check the field)
             obj = _portable(c["cls"], c["first"], c["codelen"], b"")
-            if c["cls"] == "Code310":
+            if c["cls"] in ("Code310", "Code311"):
                 obj.co_linetable = table
             else:
                 obj.co_lnotab = table
         obj.freeze()
-        tab = obj.co_linetable if c["cls"] == "Code310" else obj.co_lnotab
+        tab = obj.co_linetable if c["cls"] in ("Code310", "Code311") else obj.co_lnotab
         if isinstance(tab, str):
             tb = [ord(ch) for ch in tab]
         else:
@@ -209,3 +212,21 @@ def op_fls_loaded(c):
         return flat_pairs(_opc(c["version"]).findlinestarts(co))
     except Exception as e:
         return errobs(e)
+
+
+def op_freeze311(c):
+    """Code311.freeze() of a dict / list line table: the encoded location table, and the line starts the 3.11, 3.12 and 3.13 opcode modules
+    read from the frozen object"""
+    mp = [tuple(p) for p in c["mapping"]]
+    table = dict(mp) if c.get("as_dict") else list(mp)
+    try:
+        obj = _portable("Code311", c["first"], c["codelen"], table if isinstance(table, dict) else b"")
+        if not isinstance(table, dict):
+            obj.co_linetable = table
+        obj.freeze()
+        out = {"table": list(obj.co_linetable)}
+        for v in ([3, 11], [3, 12], [3, 13]):
+            out["fls%d%d" % tuple(v)] = [[int(a), b] for a, b in _opc(v).findlinestarts(obj)]
+        return out
+    except Exception as e:
+        return {"error": type(e).__name__ + ": " + str(e)[:200]}
